@@ -125,6 +125,45 @@ def run(R):
                 "flushed before the tasks that have not started yet have added their requests - more flushes than the longest chain of dependent requests",
                 dcfg.fmt_path(pb) if isinstance(pb, list) and pb and not isinstance(pb[0], str) else None)
 
+    # ... and that arm does what the batch-item arm does: hands exactly that batch to the scheduling method and takes it off the stack
+    # (left on the stack it would be dispatched again for ever; popped without being scheduled nobody would ever flush it)
+    sfq = "self." + ro.stack_field()
+    for n, c in inline:
+        recv = q.dotted(q.attr_call(c)[0])
+        tests_b = [(x, q.atom_test(x.ast)) for x in dcfg.nodes if x.kind == "test"]
+        bt = [(x, "T" if a[2] else "F") for x, a in tests_b if a[0] == "isinstance" and a[1][0] == recv and a[1][1].split(".")[-1] == "BatchBase"]
+        if not bt:
+            continue
+        sched_fn = ro.TS.methods.get("_schedule_batch")
+        scheds = [x for x, cc in kit.call_sites(drain, lambda cc: q.call_name(cc) == "self._schedule_batch" and cc.args and q.src(cc.args[0]) == recv)]
+        pops = [x for x, cc in kit.call_sites(drain, lambda cc: q.call_name(cc) == sfq + ".pop")]
+        loops_ = [x for x in dcfg.nodes if x.kind == "loop"]
+
+        def has_items_edge(e, recv=recv):
+            nd = dcfg.nodes[e.src]
+            if nd.kind != "test":
+                return True
+            k, s_, pos = q.atom_test(nd.ast)
+            if k == "truth" and s_ == "%s.items" % recv:
+                return e.label == ("T" if pos else "F")
+            return True
+        starts_ = [e.dst for x, lab in bt for e in dcfg.out_edges(x.id, N) if e.label == lab]
+        ps = dcfg.find_path(starts_, loops_ + [dcfg.exit], N, cut_nodes=scheds, keep_edge=has_items_edge)
+        pp = dcfg.find_path(starts_, loops_, N, cut_nodes=pops, keep_edge=has_items_edge)
+        R.check(ps is None and scheds, "C04.WHO-FLUSH", "%s:batch-arm:schedules" % drain.qualname, R.site(drain, c),
+                "a yielded batch that holds requests is handed to _schedule_batch()", "a yielded batch that holds requests can leave its arm without being scheduled: "
+                "nobody flushes it and the task waiting for it never continues", dcfg.fmt_path(ps) if ps else None)
+        R.check(pp is None and pops, "C04.WHO-FLUSH", "%s:batch-arm:pops" % drain.qualname, R.site(drain, c),
+                "a yielded batch is taken off the stack once it has been scheduled", "a yielded batch stays on top of the stack after it was scheduled: the drain "
+                "dispatches it again and again and never gets to the tasks below", dcfg.fmt_path(pp) if pp else None)
+        # only batches go to the scheduling method with the entry itself
+        for x in scheds:
+            pg = kit.path_avoiding_guard(dcfg, [x], lambda nd, recv=recv: (("T" if q.atom_test(nd.ast)[2] else "F") if nd.kind == "test" and q.atom_test(nd.ast)[0] == "isinstance"
+                                                                        and q.atom_test(nd.ast)[1][0] == recv and q.atom_test(nd.ast)[1][1].split(".")[-1] == "BatchBase" else None), N)
+            R.check(pg is None, "C04.WHO-FLUSH", "%s:batch-arm:only-batches" % drain.qualname, R.site(drain, x.ast),
+                    "only an entry that is a batch is scheduled as a batch", "an entry that is not known to be a batch can be handed to _schedule_batch() (`or` instead of `and` "
+                    "in the dispatch): a lazy future that happens to have an `items` attribute is put into the set of pending batches", dcfg.fmt_path(pg) if pg else None)
+
     def narrowed_targets(fi, call, tg, kind):
         if fi is drain and q.attr_call(call)[1] == "_compute":
             return [t for t in tg if not any(t.cls is not None and t.cls.is_subclass_of(x) for x in excluded)]
